@@ -10,6 +10,46 @@ import threading
 from .transport import SimAbort
 
 RUNNABLE, BLOCKED, WAIT_IO, DONE, NEW = 'R', 'B', 'W', 'D', 'N'
+_WARMED = set()
+
+
+def warm_opcode_tracing(trace_files, names):
+    """CPython 3.12 registers per-instruction events on a code object the first time a frame of
+    it asks for f_trace_opcodes, and that first execution does not see them. Do that once,
+    up front, so that the first deciding run of a process behaves like every later one."""
+    import inspect
+    todo = []
+    for mod in list(sys.modules.values()):
+        if getattr(mod, '__file__', None) in trace_files:
+            for _, cls in inspect.getmembers(mod, inspect.isclass):
+                for n in names:
+                    fn = cls.__dict__.get(n)
+                    if fn is not None and hasattr(fn, '__code__') and fn.__code__ not in _WARMED:
+                        todo.append(fn)
+    if not todo:
+        return
+    codes = set(fn.__code__ for fn in todo)
+
+    def tracer(frame, event, arg):
+        if frame.f_code in codes:
+            frame.f_trace_opcodes = True
+
+            def local(frame, event, arg):
+                return local
+            return local
+        return None
+    old = sys.gettrace()
+    sys.settrace(tracer)
+    try:
+        for fn in todo:
+            for _ in range(2):
+                try:
+                    fn(object())
+                except BaseException:    # noqa
+                    pass
+            _WARMED.add(fn.__code__)
+    finally:
+        sys.settrace(old)
 
 
 class HarnessError(Exception):
@@ -110,6 +150,8 @@ class Sched(object):
         self.link = None
         self.in_alloc_switch = 0
         self.harness_exc = None
+        self.state_fn = None
+        self.states = set()
 
     def probe(self, k, n=1):
         self.probes[k] = self.probes.get(k, 0) + n
@@ -145,6 +187,8 @@ class Sched(object):
             for _ in range(max(0, d - 1)):
                 self.change_points.add(self.tape.draw('sched', k))
             del order
+        if self.trace_files and self.opcode_fns:
+            warm_opcode_tracing(self.trace_files, self.opcode_fns)
         for th in self.threads:
             th.state = RUNNABLE
             th.thread = threading.Thread(target=self._body, args=(th,), name='sim-' + th.name, daemon=True)
@@ -223,6 +267,8 @@ class Sched(object):
 
     def _switch(self, th, nxt, site):
         self.switches.append((th.idx if th is not None else -1, nxt.idx, site))
+        if self.state_fn is not None:
+            self.states.add(self.state_fn())
         self.cur = nxt
         nxt.sem.release()
         if th is not None and th.state != DONE:
